@@ -9,8 +9,8 @@ Open Scope Z_scope.
 (* which delimiters are line feeds, when the rows have different numbers of fields *)
 Fixpoint nl_ragged (o : Z) (ks : list Z) : list Z :=
   match ks with [] => [] | k :: r => (o + k - 1) :: nl_ragged (o + k) r end.
-Lemma nl_scan_ragged rows : (forall r, In r rows -> r <> []) ->
-  forall o, flatnonzero_from o (map (fun x => x =? 10) (map snd (all_cells false rows))) = nl_ragged o (map len rows).
+Lemma nl_scan_ragged crlf rows : (forall r, In r rows -> r <> []) ->
+  forall o, flatnonzero_from o (map (fun x => x =? 10) (map snd (all_cells crlf rows))) = nl_ragged o (map len rows).
 Proof.
   induction rows as [|r rows IH]; intros H o; [reflexivity|].
   assert (Hne : r <> []) by (apply H; left; reflexivity).
@@ -49,13 +49,13 @@ Proof.
   rewrite firstn_app, Nat.sub_diag, firstn_all. simpl. rewrite app_nil_r. f_equal.
   rewrite skipn_app, Nat.sub_diag, skipn_all. simpl. exact IH.
 Qed.
-Lemma starts_rows_lens o rows : (forall r, In r rows -> r <> []) -> map len (starts_rows false o rows) = map len rows.
+Lemma starts_rows_lens crlf o rows : (forall r, In r rows -> r <> []) -> map len (starts_rows crlf o rows) = map len rows.
 Proof.
   revert o. induction rows as [|r rows IH]; intros o H; [reflexivity|]. simpl. f_equal.
   - unfold len. rewrite spos_length, row_cells_length by (apply H; left; reflexivity). reflexivity.
   - apply IH. intros q Hq. apply H. right. exact Hq.
 Qed.
-Lemma ends_rows_lens o rows : (forall r, In r rows -> r <> []) -> map len (ends_rows false o rows) = map len rows.
+Lemma ends_rows_lens crlf o rows : (forall r, In r rows -> r <> []) -> map len (ends_rows crlf o rows) = map len rows.
 Proof.
   revert o. induction rows as [|r rows IH]; intros o H; [reflexivity|]. simpl. f_equal.
   - unfold len. rewrite dpos_length, row_cells_length by (apply H; left; reflexivity). reflexivity.
@@ -79,82 +79,116 @@ Lemma row_cells_ne crlf r : row_cells crlf r <> [].
 Proof. unfold row_cells. destruct (map (fun f => (f, 9)) (removelast r)); discriminate. Qed.
 Lemma dpos_ne o ps : ps <> [] -> dpos o ps <> [].
 Proof. destruct ps; [congruence|discriminate]. Qed.
-(* the rest of the line, from the ends of one row *)
-Definition rest_of (data : list Z) (d : list Z) : list Z :=
-  let st := m_extra_start (nthZ d 10) in slice st (st + m_extra_len (lastz d + 1) st) data.
-Lemma row_cells_split r1 r2 : r2 <> [] -> row_cells false (r1 ++ r2) = map (fun f => (f, 9)) r1 ++ row_cells false r2.
+(* the rest of the line, from the (CR-adjusted) field ends d' and the raw ends d of one row — SAMBufferExctractor._get_extra_field
+   after /repo 6bbd290 *)
+Definition rest_of (data : list Z) (d' d : list Z) : list Z :=
+  let st := m_extra_start (nthZ d' 10) in
+  let e0 := m_extra_end0 (m_entry_end (lastz d)) in
+  let en := m_extra_end e0 (nthZ data (m_extra_probe e0)) in
+  slice st (st + m_extra_len en st) data.
+Lemma row_cells_split crlf r1 r2 : r2 <> [] -> row_cells crlf (r1 ++ r2) = map (fun f => (f, 9)) r1 ++ row_cells crlf r2.
 Proof.
   intros H. unfold row_cells. rewrite removelast_app by exact H. rewrite map_app, <- app_assoc. do 3 f_equal.
   rewrite <- (removelast_last r2 []) at 1 by exact H. rewrite app_assoc, last_app_single. reflexivity.
 Qed.
-Lemma rest_of_row r pre post : (11 <= length r)%nat ->
-  rest_of (pre ++ flatten (row_cells false r) ++ post) (dpos (len pre) (row_cells false r)) = intercalate [9] (skipn 11 r).
+Definition cr_fact (crlf : bool) (file d : list Z) : Prop :=
+  if crlf then 1 <= lastz d /\ nthZ file (lastz d - 1) = 13 else nthZ file (m_extra_probe (lastz d)) <> 13.
+Lemma nthZ_snoc l v : nthZ (l ++ [v]) (len l) = v.
+Proof. apply nthZ_mid. Qed.
+Lemma rest_of_row crlf r pre post : (11 <= length r)%nat ->
+  let file := pre ++ flatten (row_cells crlf r) ++ post in
+  let d := dpos (len pre) (row_cells crlf r) in
+  cr_fact crlf file d ->
+  rest_of file (adj crlf d) d = intercalate [9] (skipn 11 r).
 Proof.
-  intros Hl. rewrite <- (firstn_skipn 11 r) at 1 2. set (r1 := firstn 11 r). set (r2 := skipn 11 r).
+  intros Hl file d Hcr.
+  assert (En : m_extra_end (m_extra_end0 (m_entry_end (lastz d))) (nthZ file (m_extra_probe (m_extra_end0 (m_entry_end (lastz d)))))
+               = lastz d - (if crlf then 1 else 0)).
+  { unfold m_extra_end0, m_entry_end, m_extra_end, m_cr_byte. replace (lastz d + 1 - 1) with (lastz d) by lia.
+    unfold cr_fact in Hcr. destruct crlf.
+    - destruct Hcr as [H1 H13]. unfold m_extra_probe. replace (Z.max (lastz d - 1) 0) with (lastz d - 1) by lia.
+      rewrite H13. reflexivity.
+    - destruct (Z.eqb_spec (nthZ file (m_extra_probe (lastz d))) 13); [congruence|lia]. }
+  unfold rest_of. rewrite En. clear En Hcr.
+  unfold d, file. clear d file.
+  set (r1 := firstn 11 r). set (r2 := skipn 11 r).
+  assert (Er : r = r1 ++ r2) by (symmetry; apply firstn_skipn). rewrite Er. clear Er.
   assert (L1 : length r1 = 11%nat) by (unfold r1; rewrite firstn_length; lia).
-  unfold rest_of, m_extra_start, m_extra_len.
+  unfold m_extra_start, m_extra_len.
   destruct r2 as [|x r2'] eqn:E2.
   - (* no optional fields: the eleventh delimiter is the line feed *)
-    rewrite app_nil_r. set (d := dpos (len pre) (row_cells false r1)).
+    rewrite !app_nil_r. set (d := dpos (len pre) (row_cells crlf r1)).
     assert (Hd : len d = 11).
     { unfold len, d. rewrite dpos_length, row_cells_length by (intro E; rewrite E in L1; discriminate). rewrite L1. reflexivity. }
-    assert (E10 : nthZ d 10 = lastz d).
-    { unfold lastz. rewrite <- nthZ_last by (intro E; rewrite E in Hd; discriminate). f_equal. lia. }
-    rewrite E10. replace (Z.max _ 0) with 0 by lia. simpl. apply slice_empty. lia.
+    assert (Hdne : d <> []) by (intro E; rewrite E in Hd; discriminate).
+    assert (E10 : nthZ (adj crlf d) 10 = lastz d - (if crlf then 1 else 0)).
+    { destruct crlf; unfold adj.
+      - unfold set_last. replace 10 with (len (removelast d)).
+        + apply nthZ_snoc.
+        + rewrite <- (removelast_last d 0 Hdne) in Hd. rewrite len_app, len_single in Hd. lia.
+      - unfold lastz. rewrite <- nthZ_last by exact Hdne. replace (len d - 1) with 10 by lia. lia. }
+    rewrite E10. replace (Z.max _ 0) with 0 by (destruct crlf; lia). simpl. apply slice_empty. lia.
   - assert (Hr2 : x :: r2' <> []) by discriminate. rewrite row_cells_split by exact Hr2.
     set (A := map (fun f : list Z => (f, 9)) r1).
     assert (LA : length A = 11%nat) by (unfold A; rewrite map_length; exact L1).
-    rewrite dpos_app.
-    assert (E10 : nthZ (dpos (len pre) A ++ dpos (len pre + len (flatten A)) (row_cells false (x :: r2'))) 10
-                  = len pre + len (flatten A) - 1).
-    { assert (LdA : len (dpos (len pre) A) = 11).
-      { transitivity (Z.of_nat (length (dpos (len pre) A))); [reflexivity|]. rewrite dpos_length. exact (f_equal Z.of_nat LA). }
-      rewrite nthZ_app_l by lia.
-      replace 10 with (len (dpos (len pre) A) - 1) by lia.
+    rewrite dpos_app. set (dA := dpos (len pre) A). set (dB := dpos (len pre + len (flatten A)) (row_cells crlf (x :: r2'))).
+    assert (LdA : len dA = 11).
+    { transitivity (Z.of_nat (length dA)); [reflexivity|]. unfold dA. rewrite dpos_length. exact (f_equal Z.of_nat LA). }
+    assert (HdB : dB <> []) by (apply dpos_ne, row_cells_ne).
+    assert (Eadj : adj crlf (dA ++ dB) = dA ++ adj crlf dB).
+    { destruct crlf; unfold adj; [|reflexivity]. unfold set_last, lastz. rewrite removelast_app, last_app' by exact HdB.
+      rewrite <- app_assoc. reflexivity. }
+    rewrite Eadj.
+    assert (E10 : nthZ (dA ++ adj crlf dB) 10 = len pre + len (flatten A) - 1).
+    { rewrite nthZ_app_l by lia. replace 10 with (len dA - 1) by lia.
       rewrite nthZ_last by (intro E; rewrite E in LdA; discriminate).
       apply dpos_last. intro E. rewrite E in LA. discriminate. }
-    rewrite E10. unfold lastz. rewrite last_app' by (apply dpos_ne, row_cells_ne).
+    rewrite E10. unfold lastz. rewrite last_app' by exact HdB. unfold dB.
     rewrite dpos_last by apply row_cells_ne.
-    rewrite row_flat by exact Hr2. simpl eol_of. rewrite flatten_app, row_flat by exact Hr2. simpl eol_of.
-    rewrite len_app, len_single.
+    rewrite flatten_app, !row_flat by exact Hr2.
+    assert (Le : len (eol_of crlf) = 1 + (if crlf then 1 else 0)) by (destruct crlf; reflexivity).
+    rewrite len_app, Le.
     pose proof (len_nonneg (intercalate [9] (x :: r2'))).
-    replace (Z.max _ 0) with (len (intercalate [9] (x :: r2'))) by lia.
+    replace (Z.max _ 0) with (len (intercalate [9] (x :: r2'))) by (destruct crlf; lia).
     replace (len pre + len (flatten A) - 1 + 1) with (len (pre ++ flatten A)) by (rewrite len_app; lia).
-    replace (pre ++ (flatten A ++ intercalate [9] (x :: r2') ++ [10]) ++ post)
-      with ((pre ++ flatten A) ++ intercalate [9] (x :: r2') ++ ([10] ++ post)) by (rewrite <- !app_assoc; reflexivity).
+    replace (pre ++ (flatten A ++ intercalate [9] (x :: r2') ++ eol_of crlf) ++ post)
+      with ((pre ++ flatten A) ++ intercalate [9] (x :: r2') ++ (eol_of crlf ++ post)) by (rewrite <- !app_assoc; reflexivity).
     apply slice_mid.
 Qed.
-Lemma rest_of_rows rows : (forall r, In r rows -> (11 <= length r)%nat) -> forall pre post,
-  map (rest_of (pre ++ flatten (all_cells false rows) ++ post)) (ends_rows false (len pre) rows)
+Lemma rest_of_rows crlf rows : (forall r, In r rows -> (11 <= length r)%nat) -> forall pre post,
+  let file := pre ++ flatten (all_cells crlf rows) ++ post in
+  (forall d, In d (ends_rows crlf (len pre) rows) -> cr_fact crlf file d) ->
+  map (fun d => rest_of file (adj crlf d) d) (ends_rows crlf (len pre) rows)
   = map (fun r => intercalate [9] (skipn 11 r)) rows.
 Proof.
-  induction rows as [|r rows IH]; intros H pre post; [reflexivity|].
+  induction rows as [|r rows IH]; intros H pre post file Hcr; [reflexivity|].
   simpl ends_rows. simpl map. f_equal.
-  - unfold all_cells. simpl concat. rewrite flatten_app, <- app_assoc. apply rest_of_row. apply H. left. reflexivity.
-  - specialize (IH (fun q Hq => H q (or_intror Hq)) (pre ++ flatten (row_cells false r)) post). rewrite len_app in IH.
-    unfold all_cells in *. simpl concat. rewrite flatten_app.
-    replace (pre ++ (flatten (row_cells false r) ++ flatten (concat (map (row_cells false) rows))) ++ post)
-      with ((pre ++ flatten (row_cells false r)) ++ flatten (concat (map (row_cells false) rows)) ++ post)
-      by (rewrite <- !app_assoc; reflexivity).
-    exact IH.
+  - assert (Ef : file = pre ++ flatten (row_cells crlf r) ++ (flatten (all_cells crlf rows) ++ post)).
+    { unfold file, all_cells. simpl concat. rewrite flatten_app, <- !app_assoc. reflexivity. }
+    rewrite Ef. apply rest_of_row; [apply H; left; reflexivity|]. rewrite <- Ef. apply Hcr. simpl. left. reflexivity.
+  - specialize (IH (fun q Hq => H q (or_intror Hq)) (pre ++ flatten (row_cells crlf r)) post). rewrite len_app in IH.
+    assert (Ef : file = (pre ++ flatten (row_cells crlf r)) ++ flatten (all_cells crlf rows) ++ post).
+    { unfold file, all_cells. simpl concat. rewrite flatten_app, <- !app_assoc. reflexivity. }
+    cbv zeta in IH. rewrite <- Ef in IH. apply IH. intros d Hd. apply Hcr. simpl. right. exact Hd.
 Qed.
 
 (* ---------- the SAM table ---------- *)
-Theorem sam_table_correct : forall (rows : list (list (list Z))),
+Theorem sam_table_correct : forall (crlf : bool) (rows : list (list (list Z))),
   rows <> [] ->
   (forall r, In r rows -> (11 <= length r)%nat /\ forall f, In f r -> clean f) ->
-  let file := lay [10] (map (intercalate [9]) rows) in
+  let file := lay (eol_of crlf) (map (intercalate [9]) rows) in
   exists t E, sam_table file = Some t /\ t_data t = file
             /\ table_ok t (map (firstn 11) rows) /\ len (t_starts t) = len rows
-            /\ t_ends t = map (firstn 11) E /\ t_eends t = map (fun r => lastz r + 1) E /\ length (t_starts t) = length E
-            /\ map (rest_of file) E = map (fun r => intercalate [9] (skipn 11 r)) rows.
+            /\ t_ends t = map (firstn 11) (map (adj crlf) E) /\ t_eends t = map (fun r => m_entry_end (lastz r)) E
+            /\ length (t_starts t) = length E
+            /\ map (fun d => rest_of file (adj crlf d) d) E = map (fun r => intercalate [9] (skipn 11 r)) rows.
 Proof.
-  intros rows Hrows H file.
+  intros crlf rows Hrows H file.
   assert (Hne : forall r, In r rows -> r <> []).
   { intros r Hr E. destruct (H r Hr) as [Hl _]. subst r. simpl in Hl. lia. }
   assert (Hcl : forall r, In r rows -> r <> [] /\ forall f, In f r -> clean f) by (intros r Hr; split; [apply Hne; exact Hr|apply H; exact Hr]).
-  set (ps := all_cells false rows).
-  assert (Hfile : file = flatten ps) by (apply (file_flat false); exact Hne).
+  set (ps := all_cells crlf rows).
+  assert (Hfile : file = flatten ps) by (apply (file_flat crlf); exact Hne).
   assert (Hok : cells_ok ps) by (apply all_cells_ok; exact Hcl).
   assert (Hdel : delim_positions 9 file = dpos 0 ps).
   { unfold delim_positions, flatnonzero. rewrite Hfile. apply delim_positions_cells. exact Hok. }
@@ -169,11 +203,11 @@ Proof.
   assert (Hks : forall k, In k (map len rows) -> 1 <= k).
   { intros k Hk. apply in_map_iff in Hk. destruct Hk as [r [E Hr]]. subst k. destruct (H r Hr) as [Hl _]. unfold len. lia. }
   assert (Hpslen : len (dpos 0 ps) = sumZ (map len rows)).
-  { unfold len at 1. rewrite dpos_length. unfold ps. rewrite <- (ends_rows_lens 0 rows Hne), sumZ_lens, <- dpos_all.
+  { unfold len at 1. rewrite dpos_length. unfold ps. rewrite <- (ends_rows_lens crlf 0 rows Hne), sumZ_lens, <- dpos_all.
     unfold len. rewrite dpos_length. reflexivity. }
   assert (Hpsne : ps <> []).
   { intro E. rewrite E in Hpslen. simpl in Hpslen. assert (1 <= len r0) by (apply Hks; left; reflexivity).
-    unfold rows in Hpslen. simpl in Hpslen. pose proof (len_nonneg rows').
+    unfold rows in Hpslen. simpl in Hpslen.
     assert (0 <= sumZ (map len rows')). { clear. induction rows'; simpl; [lia|]. pose proof (len_nonneg a). lia. } unfold len in *. simpl in *. lia. }
   unfold sam_table. rewrite Hdel, Hee.
   change (map len rows) with (len r0 :: map len rows'). cbn [nl_ragged].
@@ -191,48 +225,53 @@ Proof.
   rewrite (firstn_all2 file) by (unfold len; lia).
   change (tl (-1 :: dpos 0 ps)) with (dpos 0 ps).
   pose proof (spos_dpos 0 ps Hpsne) as Hsp. replace (0 - 1) with (-1) in Hsp by lia. rewrite Hsp.
-  assert (HS : split_by (map len rows) (spos 0 ps) = starts_rows false 0 rows).
-  { unfold ps. rewrite spos_all, <- (starts_rows_lens 0 rows Hne). apply split_by_concat. }
-  assert (HE : split_by (map len rows) (dpos 0 ps) = ends_rows false 0 rows).
-  { unfold ps. rewrite dpos_all, <- (ends_rows_lens 0 rows Hne). apply split_by_concat. }
+  assert (HS : split_by (map len rows) (spos 0 ps) = starts_rows crlf 0 rows).
+  { unfold ps. rewrite spos_all, <- (starts_rows_lens crlf 0 rows Hne). apply split_by_concat. }
+  assert (HE : split_by (map len rows) (dpos 0 ps) = ends_rows crlf 0 rows).
+  { unfold ps. rewrite dpos_all, <- (ends_rows_lens crlf 0 rows Hne). apply split_by_concat. }
   rewrite !HS, !HE.
-  (* no carriage return in an LF file *)
-  assert (Hcr : negb ((len file =? 0) || (lastz (hd [] (ends_rows false 0 rows)) =? 0))
-                && (nthZ file (lastz (hd [] (ends_rows false 0 rows)) - 1) =? 13) = false).
-  { apply andb_false_iff. right. apply Z.eqb_neq. intro E13.
-    destruct (nthZ_In_or_0 file (lastz (hd [] (ends_rows false 0 rows)) - 1)) as [Hin|H0]; [|lia].
-    rewrite Hfile in Hin. apply (lf_no_cr rows Hcl _ Hin). rewrite <- Hfile. exact E13. }
-  rewrite Hcr.
-  assert (H11 : forallb (fun r => 11 <=? len r) (starts_rows false 0 rows) = true).
+  assert (Hadj : cr_adjust file (ends_rows crlf 0 rows) = map (adj crlf) (ends_rows crlf 0 rows)).
+  { rewrite Hfile. unfold ps. apply cr_adjust_rows; [discriminate|exact Hcl]. }
+  rewrite Hadj.
+  assert (H11 : forallb (fun r => 11 <=? len r) (starts_rows crlf 0 rows) = true).
   { apply forallb_forall. intros x Hx. apply Z.leb_le.
-    assert (In (len x) (map len (starts_rows false 0 rows))) by (apply in_map; exact Hx).
+    assert (In (len x) (map len (starts_rows crlf 0 rows))) by (apply in_map; exact Hx).
     rewrite starts_rows_lens in H0 by exact Hne. apply in_map_iff in H0. destruct H0 as [r [E Hr]]. rewrite <- E.
     destruct (H r Hr) as [Hl _]. unfold len. lia. }
   rewrite H11.
-  eexists. exists (ends_rows false 0 rows). split; [reflexivity|]. cbn [t_data t_starts t_ends t_eends].
+  assert (Hpos : 1 <= len file) by (rewrite Hfile; apply flatten_len_pos; exact Hpsne).
+  eexists. exists (ends_rows crlf 0 rows). split; [reflexivity|]. cbn [t_data t_starts t_ends t_eends].
   split; [reflexivity|]. split; [|split; [|split; [|split; [|split]]]]; try reflexivity.
   - constructor; cbn [t_data t_starts t_ends].
     + unfold table_fields. cbn [t_data t_starts t_ends].
-      pose proof (rows_texts false rows Hne [] []) as P. rewrite len_nil, app_nil_r in P.
-      change ([] ++ flatten (all_cells false rows)) with (flatten (all_cells false rows)) in P.
-      unfold adj in P. rewrite map_id in P. fold ps in P. rewrite <- Hfile in P.
+      pose proof (rows_texts crlf rows Hne [] []) as P. rewrite len_nil, app_nil_r in P.
+      change ([] ++ flatten (all_cells crlf rows)) with (flatten (all_cells crlf rows)) in P.
+      fold ps in P. rewrite <- Hfile in P.
       rewrite combine_map_both, map_map.
       transitivity (map (firstn 11) (map (fun se : list Z * list Z => map (fun p : Z * Z => slice (fst p) (snd p) file) (combine (fst se) (snd se)))
-                                         (combine (starts_rows false 0 rows) (ends_rows false 0 rows)))); [|rewrite P; reflexivity].
+                                         (combine (starts_rows crlf 0 rows) (map (adj crlf) (ends_rows crlf 0 rows))))); [|rewrite P; reflexivity].
       rewrite map_map. apply map_ext. intros [s e]. cbn [fst snd]. rewrite combine_firstn, firstn_map'. reflexivity.
     + intros row s Hrow Hs. apply in_map_iff in Hrow. destruct Hrow as [row0 [E Hrow0]]. subst row.
       assert (In s row0) by (rewrite <- (firstn_skipn 11 row0); apply in_or_app; left; exact Hs).
       apply (spos_ge 0 ps). unfold ps. rewrite spos_all. eapply in_rows_concat; eassumption.
-    + intros row e Hrow He. apply in_map_iff in Hrow. destruct Hrow as [row0 [E Hrow0]]. subst row.
-      assert (In e row0) by (rewrite <- (firstn_skipn 11 row0); apply in_or_app; left; exact He).
-      pose proof (dpos_le 0 ps e) as P.
-      assert (In e (dpos 0 ps)) by (unfold ps; rewrite dpos_all; eapply in_rows_concat; eassumption).
-      specialize (P H1). rewrite Hfile. lia.
-    + rewrite Hfile. apply flatten_len_pos. exact Hpsne.
+    + intros row e Hrow He. apply in_map_iff in Hrow. destruct Hrow as [row1 [E Hrow1]]. subst row.
+      apply in_map_iff in Hrow1. destruct Hrow1 as [row0 [E Hrow0]]. subst row1.
+      assert (Hin : In e (adj crlf row0)) by (rewrite <- (firstn_skipn 11 (adj crlf row0)); apply in_or_app; left; exact He).
+      enough (e <= len file - 1) by lia. clear He. revert e Hin. apply adj_le; [lia|].
+      intros e2 He2. pose proof (dpos_le 0 ps e2) as P.
+      assert (Hin2 : In e2 (dpos 0 ps)) by (unfold ps; rewrite dpos_all; eapply in_rows_concat; eassumption).
+      specialize (P Hin2). rewrite Hfile. lia.
+    + exact Hpos.
   - unfold len. rewrite map_length, starts_rows_length. reflexivity.
   - rewrite map_length, starts_rows_length, ends_rows_length. reflexivity.
-  - pose proof (rest_of_rows rows (fun r Hr => proj1 (H r Hr)) [] []) as P. rewrite len_nil, app_nil_r in P.
-    change ([] ++ flatten (all_cells false rows)) with (flatten (all_cells false rows)) in P. fold ps in P. rewrite <- Hfile in P. exact P.
+  - pose proof (rest_of_rows crlf rows (fun r Hr => proj1 (H r Hr)) [] []) as P. rewrite len_nil, app_nil_r in P.
+    change ([] ++ flatten (all_cells crlf rows)) with (flatten (all_cells crlf rows)) in P. fold ps in P. rewrite <- Hfile in P.
+    apply P. intros d Hd. unfold cr_fact. destruct crlf.
+    + pose proof (crlf_before_eol rows Hne [] [] d) as Q. rewrite len_nil, app_nil_r in Q.
+      change ([] ++ flatten (all_cells true rows)) with (flatten (all_cells true rows)) in Q. fold ps in Q. rewrite <- Hfile in Q.
+      apply Q. exact Hd.
+    + intro E13. destruct (nthZ_In_or_0 file (m_extra_probe (lastz d))) as [Hin|H0]; [|lia].
+      rewrite Hfile in Hin. apply (lf_no_cr rows Hcl _ Hin). rewrite <- Hfile. exact E13.
 Qed.
 
 Lemma nth_firstn_lt {A} (k n : nat) (l : list A) d : (k < n)%nat -> nth k (firstn n l) d = nth k l d.
@@ -242,10 +281,13 @@ Proof.
 Qed.
 Lemma field_firstn r j : 0 <= j < 11 -> field (firstn 11 r) j = field r j.
 Proof. intros H. unfold field. apply nth_firstn_lt. lia. Qed.
-Lemma trest_map (S' E : list (list Z)) (data : list Z) : length S' = length E ->
-  map (fun '(se, ee) => let st := m_extra_start (snd se) in CBytes (slice st (st + m_extra_len ee st) data))
-      (combine (combine (col S' 10) (col (map (firstn 11) E) 10)) (map (fun r => lastz r + 1) E))
-  = map (fun e => CBytes (rest_of data e)) E.
+Lemma trest_map crlf (S' E : list (list Z)) (data : list Z) : length S' = length E ->
+  map (fun '(se, ee) => let st := m_extra_start (snd se) in
+                        let e0 := m_extra_end0 ee in
+                        let en := m_extra_end e0 (nthZ data (m_extra_probe e0)) in
+                        CBytes (slice st (st + m_extra_len en st) data))
+      (combine (combine (col S' 10) (col (map (firstn 11) (map (adj crlf) E)) 10)) (map (fun r => m_entry_end (lastz r)) E))
+  = map (fun d => CBytes (rest_of data (adj crlf d) d)) E.
 Proof.
   revert S'. induction E as [|e E IH]; intros S' H; destruct S' as [|s S']; try discriminate; [reflexivity|].
   unfold col in *. cbn [map combine fst snd]. f_equal.
@@ -253,27 +295,28 @@ Proof.
   - apply IH. simpl in H. lia.
 Qed.
 
-(* SAM, whole files: '@' header lines skipped, eleven typed columns, the optional tags as one text column *)
-Theorem sam_end_to_end : forall (hs : list (list Z)) (rows : list (list (list Z))),
+(* SAM, whole files, LF or CRLF: '@' header lines skipped, eleven typed columns, the optional tags as one text column
+   (without the carriage return) *)
+Theorem sam_end_to_end : forall (crlf : bool) (hs : list (list Z)) (rows : list (list (list Z))),
   (forall h, In h hs -> hd0 h = 64 /\ ~ In 10 h) ->
   rows <> [] ->
   (forall r, In r rows -> (11 <= length r)%nat /\ forall f, In f r -> clean f) ->
   (forall jt, In jt (schema Fsam) -> snd jt <> TRest -> col_wf rows 11 jt) ->
-  hd0 (body_of false rows) <> 64 ->
-  run Fsam None (lay [10] hs ++ body_of false rows) = Obs (len rows) (spec_cols Fsam None rows) true.
+  hd0 (body_of crlf rows) <> 64 ->
+  run Fsam None (lay (eol_of crlf) hs ++ body_of crlf rows) = Obs (len rows) (spec_cols Fsam None rows) true.
 Proof.
-  intros hs rows Hh Hne H Hwf Hb.
-  destruct (sam_table_correct rows Hne H) as [t [E [Ht [Hd [Hok [Hl [He [Hee [Hlen Hrest]]]]]]]]].
+  intros crlf hs rows Hh Hne H Hwf Hb.
+  destruct (sam_table_correct crlf rows Hne H) as [t [E [Ht [Hd [Hok [Hl [He [Hee [Hlen Hrest]]]]]]]]].
   unfold run. cbn [comment_byte].
-  pose proof (skip_header_correct 64 false hs (body_of false rows) ltac:(lia) Hh Hb) as Hs. simpl eol_of in Hs. rewrite Hs.
-  cbn [table_of]. unfold body_of. simpl eol_of. rewrite Ht. cbn [eager_format andb]. rewrite Hl. f_equal.
+  rewrite (skip_header_correct 64 crlf hs (body_of crlf rows) ltac:(lia) Hh Hb).
+  cbn [table_of]. unfold body_of. rewrite Ht. cbn [eager_format andb]. rewrite Hl. f_equal.
   set (rows' := map (firstn 11) rows) in *.
   assert (Hrne : rows' <> []) by (unfold rows'; destruct rows; [congruence|discriminate]).
   assert (Hl11 : forall r, In r rows' -> len r = 11).
   { intros r Hr. unfold rows' in Hr. apply in_map_iff in Hr. destruct Hr as [x [Ex Hx]]. subst r.
     unfold len. rewrite firstn_length. destruct (H x Hx) as [A _]. lia. }
   assert (Hcolj : forall j ty, In (j, ty) (schema Fsam) -> ty <> TRest -> typed_col t j ty = spec_col rows (j, ty)).
-  { intros j ty Hin Hty. destruct (Hwf (j, ty) Hin Hty) as [Hj [Hw Hsid]]. cbn [fst snd] in *.
+  { intros j ty Hin Hty. destruct (Hwf (j, ty) Hin Hty) as [Hj Hw]. cbn [fst snd] in *.
     rewrite (typed_col_correct t rows' j ty Hok Hrne ltac:(lia)).
     - apply spec_col_same; [exact Hty|unfold rows'; rewrite map_length; reflexivity|].
       intros k. unfold rows'. destruct (Nat.lt_ge_cases k (length rows)) as [Hk|Hk].
@@ -281,16 +324,16 @@ Proof.
       + rewrite !nth_overflow by (rewrite ?map_length; lia). reflexivity.
     - intros r Hr. rewrite (Hl11 r Hr). lia.
     - intros r Hr. unfold rows' in Hr. apply in_map_iff in Hr. destruct Hr as [x [Ex Hx]]. subst r.
-      rewrite field_firstn by lia. apply Hw. exact Hx.
-    - intros Et. destruct (Hsid Et) as [r [Hr Hn]]. exists (firstn 11 r). split.
-      + unfold rows'. apply in_map. exact Hr.
-      + rewrite field_firstn by lia. exact Hn. }
-  unfold run_cols, spec_cols. cbn [schema has_geno map app fst snd].
+      rewrite field_firstn by lia. apply Hw. exact Hx. }
+  unfold run_cols, spec_cols. cbn [schema has_geno has_geno2 map app fst snd].
   repeat (rewrite Hcolj by (try discriminate; simpl; tauto)).
   do 11 f_equal.
   (* the rest-of-line column *)
   unfold typed_col, bounds. rewrite He, Hee, Hd.
-  rewrite (trest_map (t_starts t) E _ Hlen), <- map_map, Hrest, map_map.
+  rewrite (trest_map crlf (t_starts t) E _ Hlen).
+  replace (map (fun d => CBytes (rest_of (lay (eol_of crlf) (map (intercalate [9]) rows)) (adj crlf d) d)) E)
+    with (map CBytes (map (fun d => rest_of (lay (eol_of crlf) (map (intercalate [9]) rows)) (adj crlf d) d) E)) by (rewrite map_map; reflexivity).
+  rewrite Hrest, map_map.
   unfold spec_col. cbn [fst snd]. unfold spec_cell.
   rewrite (mapM_some (fun r => CBytes (intercalate [9] (skipn (Z.to_nat 11) r)))). reflexivity.
 Qed.
